@@ -48,6 +48,11 @@ CLAIMS = {
          "everything NATS forbids, that every reply envelope and every static payload literal has exactly one of result/resource/error with string code/message, that meta is only reachable "
          "behind the HTTP and not-replied guards, that marshal output is published only when err==nil, and that pre-responses and event payload structs have the documented shape. JSON "
          "produced by encoding/json for user values is trusted.", "DESIGN.md section 4 C07"),
+ "C11": ("lock-mode pairing census + sentinel reachability + callback-count typestate with argument value flow + closure-order dominance + receiver-kind cache-coherence rule",
+         "Decides per shipped store the structural part of map-equivalence: Read/Write acquire and the txn's own Close releases the same mode on the txn id exactly once; duplicate / not-found "
+         "sentinels are returned and the raw database sentinel is not; Create guards the empty id; exactly one change fan-out on success returns, after the success edge, with (id, value read in "
+         "the same transaction, new value), none on error returns; type check before the transaction, veto before the write inside it; a cached value in the txn is dead or refreshed by every "
+         "mutation. Linearizability of concurrent histories is not executed.", "DESIGN.md section 4 C11"),
 }
 
 NA = {
